@@ -43,7 +43,8 @@ def main(argv):
     full = len(argv) > 3 and argv[3] == "full"
     order = int(argv[4]) if len(argv) > 4 else 0
     sys.path.insert(0, repo)
-    warnings.simplefilter("ignore")
+    # (no blanket warning filter here: the warning filters of the process are
+    # part of the simulated configuration)
     import statham
     from statham.__main__ import main as statham_main
     from statham.schema.constants import COMPOSITION_KEYWORDS
